@@ -217,4 +217,10 @@ def check(R):
         # and on both arms the slot is released (the session is evicted, or exchanges[exch_index] = None)
         from C10 import dropped_partition_rule
         dropped_partition_rule(R)
+        # a session that is expired (kept only so that the exchange that expired it can answer) takes no new exchange: the slot is never
+        # allocated - refusing AFTER add_exch leaves an AcceptPending exchange nobody will ever accept, and pins the session for good
+        SESS_ = 'transport::session::Session'
+        pr_ = R.body(SESS_ + '::post_recv')
+        te_, fe_ = field_bool_edges(pr_, 'expired:' + SESS_)
+        R.cut('P2', pr_, 'allocate an exchange slot for a new inbound exchange (add_exch)', call_bbs(pr_, SESS_ + '::add_exch'), 'the session is not expired', fe_)
 
